@@ -359,8 +359,86 @@ class LogicTr:
     "Known to be BoolType" is decided by enumerating the isinstance-atoms over the
     path condition (so the final `else` of a 4-way ladder knows both operands are bool)."""
 
-    def __init__(self, params):
+    def __init__(self, params, mod: Optional[ast.Module] = None):
         self.params = params
+        self.mod = mod
+
+    # --- normalisation (behaviour-preserving rewrites the translator follows) --------------
+    # * a local bound once to a pure test (`x_is_bool = isinstance(x, BoolType)`, and/or/not of such) or to a
+    #   message string is substituted into the statements after it;
+    # * a call of a module-level helper whose body is a single `return <expr>` is inlined (one level).
+    @staticmethod
+    def _is_pure_test(e) -> bool:
+        if isinstance(e, ast.Call) and isinstance(e.func, ast.Name) and e.func.id == "isinstance":
+            return isinstance(e.args[0], ast.Name)
+        if isinstance(e, ast.UnaryOp) and isinstance(e.op, ast.Not):
+            return LogicTr._is_pure_test(e.operand)
+        if isinstance(e, ast.BoolOp):
+            return all(LogicTr._is_pure_test(v) for v in e.values)
+        return False
+
+    @staticmethod
+    def _is_message(e) -> bool:
+        if isinstance(e, ast.JoinedStr) or (isinstance(e, ast.Constant) and isinstance(e.value, str)):
+            return True
+        if (isinstance(e, ast.Call) and isinstance(e.func, ast.Attribute) and e.func.attr == "format"
+                and isinstance(e.func.value, ast.Constant) and isinstance(e.func.value.value, str)):
+            return True
+        if isinstance(e, ast.BinOp) and isinstance(e.op, ast.Mod) and isinstance(e.left, ast.Constant) and isinstance(e.left.value, str):
+            return True
+        return False
+
+    @staticmethod
+    def _assigned_names(stmts) -> set:
+        out = set()
+        for st in stmts:
+            for n in ast.walk(st):
+                if isinstance(n, ast.Name) and isinstance(n.ctx, (ast.Store, ast.Del)):
+                    out.add(n.id)
+                elif isinstance(n, (ast.FunctionDef, ast.Lambda, ast.ListComp, ast.SetComp, ast.DictComp, ast.GeneratorExp)):
+                    raise TranslationError("nested scope in a logic function")
+        return out
+
+    @staticmethod
+    def _subst(stmts, name: str, repl):
+        import copy
+
+        class R(ast.NodeTransformer):
+            def visit_Name(self, n):
+                if n.id == name and isinstance(n.ctx, ast.Load):
+                    return copy.deepcopy(repl)
+                return n
+        return [R().visit(copy.deepcopy(st)) for st in stmts]
+
+    def inline(self, e, depth: int = 0):
+        """expand calls of single-`return` module-level helpers inside a test (one level)"""
+        if self.mod is None:
+            return e
+        import copy
+        tr = self
+
+        class I(ast.NodeTransformer):
+            def visit_Call(self, n):
+                n = self.generic_visit(n)
+                if isinstance(n.func, ast.Name) and n.func.id not in ("isinstance", "cast", "BoolType", "type", "bool") and not n.keywords:
+                    try:
+                        fn = find_func(tr.mod.body, n.func.id)
+                    except TranslationError:
+                        return n
+                    body = strip_doc(fn.body)
+                    ps = [a.arg for a in fn.args.args]
+                    if (len(body) == 1 and isinstance(body[0], ast.Return) and body[0].value is not None
+                            and len(ps) == len(n.args) and not fn.decorator_list
+                            and not fn.args.vararg and not fn.args.kwarg and not fn.args.kwonlyargs
+                            and all(isinstance(a, ast.Name) for a in n.args)):
+                        m = dict(zip(ps, n.args))
+
+                        class S(ast.NodeTransformer):
+                            def visit_Name(self, x):
+                                return copy.deepcopy(m[x.id]) if x.id in m else x
+                        return S().visit(copy.deepcopy(body[0].value))
+                return n
+        return I().visit(copy.deepcopy(e))
 
     # --- path-condition reasoning -------------------------------------------------
     @staticmethod
@@ -407,7 +485,12 @@ class LogicTr:
     def cond(self, e, path) -> str:
         if isinstance(e, ast.BoolOp):
             j = " ∧ " if isinstance(e.op, ast.And) else " ∨ "
-            return "(" + j.join(self.cond(v, path) for v in e.values) + ")"
+            # short-circuit: a later operand is only evaluated when the earlier ones were true (and) / false (or)
+            parts, p2 = [], list(path)
+            for v in e.values:
+                parts.append(self.cond(v, p2))
+                p2 = p2 + [(v, isinstance(e.op, ast.And))]
+            return "(" + j.join(parts) + ")"
         if isinstance(e, ast.UnaryOp) and isinstance(e.op, ast.Not):
             return f"¬{self.cond(e.operand, path)}"
         if isinstance(e, ast.Call) and isinstance(e.func, ast.Name) and e.func.id == "isinstance":
@@ -434,7 +517,16 @@ class LogicTr:
         if isinstance(e, ast.Call) and isinstance(e.func, ast.Name) and e.func.id == "BoolType" and len(e.args) == 1:
             return f"(O.ofBool {self.boolexpr(e.args[0], path)})"
         if isinstance(e, ast.IfExp):
-            return f"(if {self.cond(e.test, path)} then {self.value(e.body, path)} else {self.value(e.orelse, path)})"
+            test = self.inline(e.test)
+            return (f"(if {self.cond(test, path)} then {self.value(e.body, path + [(test, True)])} "
+                    f"else {self.value(e.orelse, path + [(test, False)])})")
+        if isinstance(e, ast.BoolOp) and len(e.values) == 2 and isinstance(e.values[0], ast.Name):
+            # Python's `x and y` / `x or y` hand back an OPERAND: x decides by its truthiness (x must be a known BoolType)
+            x = e.values[0]
+            c = self.cond(x, path)
+            if isinstance(e.op, ast.And):
+                return f"(if {c} then {self.value(e.values[1], path)} else {x.id})"
+            return f"(if {c} then {x.id} else {self.value(e.values[1], path)})"
         raise TranslationError(f"logic value {ast.unparse(e)[:40]}")
 
     def boolexpr(self, e, path) -> str:
@@ -449,6 +541,8 @@ class LogicTr:
             return "(" + j.join(self.boolexpr(v, path) for v in e.values) + ")"
         if isinstance(e, ast.UnaryOp) and isinstance(e.op, ast.Not):
             return f"(!{self.boolexpr(e.operand, path)})"
+        if isinstance(e, ast.Constant) and isinstance(e.value, bool):
+            return "true" if e.value else "false"
         raise TranslationError(f"logic boolexpr {ast.unparse(e)[:40]}")
 
     def block(self, stmts, indent: str, path) -> List[str]:
@@ -461,15 +555,37 @@ class LogicTr:
             if isinstance(st, ast.Raise):
                 out.append(f"{indent}.error {IntTr.exc(st)}")
                 return out
-            if isinstance(st, ast.Assign) and isinstance(st.targets[0], ast.Name):
+            if (isinstance(st, ast.Assign) and len(st.targets) == 1 and isinstance(st.targets[0], ast.Tuple)
+                    and isinstance(st.value, ast.Tuple) and len(st.targets[0].elts) == len(st.value.elts)
+                    and all(isinstance(t, ast.Name) for t in st.targets[0].elts)):
+                # `a, b = e1, e2` with no target occurring in a right-hand side = two assignments in sequence
+                tg = {t.id for t in st.targets[0].elts}
+                if len(tg) == len(st.value.elts) and not any(isinstance(n, ast.Name) and n.id in tg for v in st.value.elts for n in ast.walk(v)):
+                    seq = [ast.copy_location(ast.Assign(targets=[t], value=v), st) for t, v in zip(st.targets[0].elts, st.value.elts)]
+                    return out + self.block(seq + list(stmts[i + 1:]), indent, path)
+            if isinstance(st, ast.AnnAssign) and st.value is not None and isinstance(st.target, ast.Name):
+                st = ast.copy_location(ast.Assign(targets=[st.target], value=st.value), st)
+            if (isinstance(st, ast.Assign) and len(st.targets) == 1 and isinstance(st.targets[0], ast.Name)
+                    and (self._is_pure_test(self.inline(st.value)) or self._is_message(st.value))):
+                name = st.targets[0].id
+                val = self.inline(st.value) if not self._is_message(st.value) else st.value
+                later = self._assigned_names(stmts[i + 1:])
+                free = {n.id for n in ast.walk(val) if isinstance(n, ast.Name)}
+                if name in self.params or name in later or (free & later) or name in free:
+                    raise TranslationError(f"local {name} is rebound (or its operands are) after its definition")
+                return out + self.block(self._subst(stmts[i + 1:], name, val), indent, path)
+            if isinstance(st, ast.Assign) and len(st.targets) == 1 and isinstance(st.targets[0], ast.Name):
+                if st.targets[0].id in self.params:
+                    raise TranslationError(f"parameter {st.targets[0].id} is rebound")
                 v = self.value(st.value, path)
                 rest = self.block(stmts[i + 1:], indent, path)
                 out.append(f"{indent}let {st.targets[0].id} := {v}")
                 return out + rest
             if isinstance(st, ast.If):
-                c = self.cond(st.test, path)
-                pt = path + [(st.test, True)]
-                pf = path + [(st.test, False)]
+                test = self.inline(st.test)
+                c = self.cond(test, path)
+                pt = path + [(test, True)]
+                pf = path + [(test, False)]
                 rest = stmts[i + 1:]
                 thn_src = list(st.body) if IntTr.terminates(st.body) else list(st.body) + rest
                 if st.orelse and IntTr.terminates(st.orelse):
@@ -490,7 +606,9 @@ class LogicTr:
 def translate_logic_fn(mod: ast.Module, name: str, lname: str) -> str:
     fn = find_func(mod.body, name)
     params = [a.arg for a in fn.args.args]
-    tr = LogicTr(params)
+    if fn.args.vararg or fn.args.kwarg or fn.args.kwonlyargs or fn.args.defaults or fn.decorator_list:
+        raise TranslationError(f"{name}: signature/decorators outside the subset")
+    tr = LogicTr(params, mod)
     body = tr.block(fn.body, "  ", [])
     sig = " ".join(f"({p} : O)" for p in params)
     return f"def {lname} {sig} : PyM O :=\n" + "\n".join(body) + "\n"
